@@ -855,8 +855,28 @@ def velocity(ctx):
         vexpr.equals(nf.rat(E('MIN_MIDI_VELOCITY')) + (nf.rat(E(b)) - nf.rat(E('1'))) * S)
   except nf.NFError:
     unk2 = 'cannot classify: velocity_bin_to_velocity returns %s' % norm_text(r2[0].value)[:80]
+  capped = None
+  rv2 = U.expand_locals(tv.node, r2[0].value, at=r2[0])
+  if not ok2 and isinstance(rv2, ast.Call) and dotted(rv2.func) == 'min' and len(rv2.args) == 2 and not rv2.keywords:
+    # located: the lower bound of a bin capped from above.  MIN + (bin - 1) * ceil(127 / n) reaches 251 (n = 126, bin = 126), and is above
+    # 127 for the top bins of n = 14, 17, 18, 20, ...: a cap below 251 gives two bins the same velocity, which velocity_to_bin sends to a lower bin
+    mi_ = ctx.P.module('performance_lib')
+    for cap_, body_ in ((rv2.args[0], rv2.args[1]), (rv2.args[1], rv2.args[0])):
+      k_ = U.const_value(U.expand_locals(tv.node, cap_, module_assigns=mi_.assigns, at=r2[0]))
+      if k_ is None and isinstance(cap_, ast.Name) and cap_.id in ('MAX_MIDI_VELOCITY',):
+        k_ = 127
+      try:
+        same_ = nf.Builder({nb2: E('N')}).rat(body_).equals(nf.rat(E('MIN_MIDI_VELOCITY')) + (nf.rat(E(b)) - nf.rat(E('1'))) * nf.rat(E('_velocity_bin_size(N)')))
+      except nf.NFError:
+        same_ = False
+      if k_ is not None and k_ < 251 and same_:
+        capped = (norm_text(cap_), k_)
+  if capped:
+    unk2 = None
   ctx.ob('VEL/right-inverse', tv, r2[0], ok2, 'velocity(bin) = MIN + (bin - 1) * size, so to_bin(velocity(bin)) = bin' if ok2 else
-         (unk2 or 'velocity_bin_to_velocity is not MIN_MIDI_VELOCITY + (bin - 1) * _velocity_bin_size(n): it is not a right inverse of velocity_to_bin'), unknown=unk2)
+         ('the lower bound of a bin is capped at %s (%s): MIN + (bin - 1) * size exceeds it for the top bins of 14, 17, 18, 20, ... bins, which then share one velocity - velocity_to_bin sends it to a lower '
+          'bin, so bin -> velocity -> bin is not the identity on every bin' % capped if capped else
+          (unk2 or 'velocity_bin_to_velocity is not MIN_MIDI_VELOCITY + (bin - 1) * _velocity_bin_size(n): it is not a right inverse of velocity_to_bin')), unknown=unk2, definite=bool(capped))
   r3 = [s for s in U.walk_stmts(sz.node) if isinstance(s, ast.Return)]
   ok3, wrong, why3 = False, False, 'the bin size is not written in a recognised integer-division idiom'
   if len(r3) == 1:
